@@ -3,6 +3,7 @@
 // item no longer has the shape the translator understands (a broken obligation, never a silent fallback).
 mod refers;
 mod helpers;
+mod inventory;
 
 #[macro_export]
 macro_rules! shape_changed {
@@ -35,6 +36,7 @@ fn main() {
     match a[1].as_str() {
         "GenRefers" => refers::generate(&a[2], &a[3]),
         "GenHelpers" => helpers::generate(&a[2], &a[3]),
+        "GenInventory" => inventory::generate(&a[2], &a[3]),
         other => { eprintln!("unknown generator {other}"); std::process::exit(2) }
     }
 }
